@@ -1041,13 +1041,21 @@ type vrfCliSample struct {
 
 func (h *vrfCli) sample() vrfCliSample {
 	cc := h.CC
+	// A buffered byte counts as held only while somebody can still read or close the body:
+	// the application has the response and has not closed it, or RoundTrip has not returned
+	// yet. Bytes buffered for a request whose RoundTrip returned an error are nobody's.
 	appClosed := map[*clientStream]bool{}
+	failed := map[uint32]bool{}
 	for _, rq := range h.reqs {
-		if _, _, cs := rq.roundTripState(); cs != nil {
+		done, err, cs := rq.roundTripState()
+		if cs != nil {
 			h.known[cs] = true
 			if _, _, closed, _, _ := rq.app.snapshot(); closed {
 				appClosed[cs] = true
 			}
+		}
+		if done && err != nil && rq.id != 0 {
+			failed[rq.id] = true
 		}
 	}
 	cc.mu.Lock()
@@ -1060,7 +1068,7 @@ func (h *vrfCli) sample() vrfCliSample {
 		v.stUnsent[id] = cs.inflow.unsent
 	}
 	for cs := range h.known {
-		if !appClosed[cs] {
+		if !appClosed[cs] && !failed[cs.ID] {
 			v.held += int64(cs.bufPipe.Len())
 		}
 		if vrfDebug {
